@@ -18,6 +18,9 @@ CLIENT_FILES = ["replay/client/zz_verif_drivers_test.go"]
 WALLET_FILES = ["replay/wallet/zz_verif_drivers_test.go"]
 
 DRIVERS = [
+    (r"mint\.Mint\)\.(Swap|MeltTokens)$", r"rg:guarantee:.*@lockedorspent", "mint", MINT_FILES, "TestVerifReplay_SwapDuringMelt", None),
+    (r"mint\.Mint\)\.MintTokens$", r"rg:(pre|guarantee):storage\.MintDB\.UpdateMintQuoteState", "mint", MINT_FILES, "TestVerifReplay_ConcurrentMint", None),
+    (r"mint\.Mint\)\.GetMintQuoteState$", r"rg:(pre|guarantee):storage\.MintDB\.UpdateMintQuoteState", "mint", MINT_FILES, "TestVerifReplay_PollOverwritesIssued", None),
     (r"wallet\.Wallet\)\.swapToSend$", r"callsite:slices\.Sort@sendfee", "wallet", WALLET_FILES, "TestVerifReplay_SendFeeEstimate", {"Amount": 3, "FeePpk": 1000}),
     (r"wallet\.Wallet\)\.getActiveKeyset$", r"post@past|inv-", "wallet", WALLET_FILES, "TestVerifReplay_FeeChangeRewindsCounter", None),
     (r"wallet\.Restore$", r"callsite:storage\.WalletDB\.IncrementKeysetCounter|shape:", "wallet", WALLET_FILES, "TestVerifReplay_RestoreCounter", None),
